@@ -10,7 +10,8 @@ LEVEL_TEXT = ("TLC explores MBuffObj.tla exhaustively in a small scope (all hist
               "laws of the reference (searches in range and 'not found == length', cmp = lexicographic then length, refused => unchanged, "
               "independence of the two objects); EVERY transition TLC generates is then executed on real mbuff objects through the class "
               "table (ASan build of the current tree, exact-size unterminated argument copies) with bytes, length, return value and the "
-              "capacity/allocation invariants compared after every step, plus random walks; recorded executions with buffers of "
+              "capacity/allocation invariants compared after every step (the slack behind the length is overwritten with adversarial bytes each step), "
+              "plus a sampled 2-step transition cover and random walks; recorded executions with buffers of "
               "0..20000 bytes built from regular files, files at a non-zero offset, pipes and pipes fed in pieces are validated by TLC "
               "against the same actions.")
 LEVEL_NOTE = ("Bounded scope for the exhaustive part; beyond it only the recorded executions. Trusted: TLC, the harness projection "
